@@ -7,12 +7,15 @@ LEDGER = "../../../../play.ledger"      # from an actor's work dir (out/<run>/ar
 
 
 def action_cmd(name, sleep_s, exit_code=0):
+    if exit_code < 0:
+        # the command dies from a signal (no exit status of its own, no `B` record)
+        return ('echo "$(basename $PWD).%s A $(date +%%s%%N)" >> %s; sleep %s; kill -KILL $$' % (name, LEDGER, sleep_s))
     return ('echo "$(basename $PWD).%s A $(date +%%s%%N)" >> %s; sleep %s; echo "$(basename $PWD).%s B $(date +%%s%%N) %d" >> %s; exit %d'
             % (name, LEDGER, sleep_s, name, exit_code, LEDGER, exit_code))
 
 
 def gen_play(rng, fail_at=None, tolerated=False, nacts=None, repeat=None, long_actions=True, spotlight=None, cleanup=None,
-             tolerated_before=False):
+             tolerated_before=False, fail_code=None):
     """returns dict(text, actions{name:(sleep, exit)}, tempo_ms, story)"""
     actors = ["a", "b", "c"][:rng.range(1, 3)]
     tempo = rng.pick([40, 60, 80, 120])
@@ -71,7 +74,7 @@ def gen_play(rng, fail_at=None, tolerated=False, nacts=None, repeat=None, long_a
                 followed = [n for n in names if n[:-1] + str(int(n[-1]) + 1) in actions]
                 if followed:
                     nm = followed[fail_at % len(followed)]
-        actions[nm][1] = 3
+        actions[nm][1] = fail_code if fail_code is not None else rng.pick([3, 3, -9])       # exits with a status, or is killed by a signal
         marks[nm] = "?" if tolerated else ""
     out = ["role r"]
     for nm, (d, ec) in sorted(actions.items()):
